@@ -17,6 +17,7 @@ import (
 	"math/rand"
 	"os"
 	"path/filepath"
+	"regexp"
 	"strings"
 	"sync"
 
@@ -28,8 +29,34 @@ import (
 	"github.com/BlackVectorOps/semantic_firewall/v3/internal/verifh/lib/pairs"
 )
 
+var identRe = regexp.MustCompile(`[A-Za-z_][A-Za-z0-9_]*`)
+var loopVarRe = regexp.MustCompile(`^[ij][0-9]+(_zr[0-9]+)?$`)
+
+// ivPermutation: the edit only permuted identifiers, and every identifier that moved is a
+// generated loop variable. Two loop variables with equal start and step are rendered as the
+// same add-recurrence (the loop identity is dropped), which is one known root cause.
+func ivPermutation(a edit.Applied) bool {
+	if a.Before == "" || a.After == "" || identRe.ReplaceAllString(a.Before, "#") != identRe.ReplaceAllString(a.After, "#") {
+		return false
+	}
+	x, y := identRe.FindAllString(a.Before, -1), identRe.FindAllString(a.After, -1)
+	moved := false
+	for i := range x {
+		if x[i] != y[i] {
+			moved = true
+			if !loopVarRe.MatchString(x[i]) || !loopVarRe.MatchString(y[i]) {
+				return false
+			}
+		}
+	}
+	return moved
+}
+
 func detail(a edit.Applied) string {
 	k := a.Kind
+	if ivPermutation(a) {
+		return "iv-loop-identity/exchanged-loop-variables"
+	}
 	if a.Kind == "callee-swap" {
 		b, c := a.Before, a.After
 		bi, ci := strings.Index(b, "("), strings.Index(c, "(")
